@@ -1467,6 +1467,7 @@ class Canon:
             return self.cache[key]
         b = [copy.deepcopy(s) for s in real_body(fn)]
         b = strip_annotations(b)
+        b = norm.merge_display_building(b)
         b = self._inline_unknown_constants(b, module, fn)
         b2 = norm.unroll_literal_loops(b)
         if len(b2) != len(b) or any(x is not y for x, y in zip(b, b2)):
